@@ -94,6 +94,16 @@ where
                 // a panic while using the RESTORED value is a finding, not a harness error
                 let fb_rest = catch_unwind(AssertUnwindSafe(|| fp_of(&rest, &p, fp))).map_err(|_| "restored value panicked when used".to_string());
                 let eqr = eq.map(|f| catch_unwind(AssertUnwindSafe(|| f(&orig, &rest))).unwrap_or(false));
+                // second generation: the restored value is persisted again (a service that
+                // checkpoints what it restored) and restored once more
+                let gen2: Result<Fingerprint, String> = (|| {
+                    let mut f2 = SimFile::new(storage_seed ^ 0x2222);
+                    bincode::serialize_into(&mut f2, &rest).map_err(|e| format!("second-generation serialize: {e}"))?;
+                    f2.rewind();
+                    let r2: T = bincode::deserialize_from(&mut f2).map_err(|e| format!("second-generation deserialize: {e}"))?;
+                    catch_unwind(AssertUnwindSafe(|| fp_of(&r2, &p, fp))).map_err(|_| "second-generation value panicked when used".to_string())
+                })();
+                *probes.entry("second_generation_round_trips".to_string()).or_default() += 1;
                 let js = match &json {
                     Ok(s) => match serde_json::from_str::<T>(s) {
                         Ok(jv) => catch_unwind(AssertUnwindSafe(|| fp_of(&jv, &p, fp))).map_err(|_| "json-restored value panicked when used".to_string()),
@@ -101,7 +111,7 @@ where
                     },
                     Err(e) => Err(format!("json serialize: {e}")),
                 };
-                (fb_orig, Ok(fb_rest), eqr, Some(js), stats, probes)
+                (fb_orig, Ok((fb_rest, gen2)), eqr, Some(js), stats, probes)
             }
         }
     });
@@ -120,9 +130,17 @@ where
             }
             match rest {
                 Err(e) => out.codec_error = Some(format!("deserialize: {e}")),
-                Ok(Err(p)) => out.restored_differs = Some(("<use of restored value>".into(), "value".into(), p)),
-                Ok(Ok(fb_rest)) => {
+                Ok((Err(p), _)) => out.restored_differs = Some(("<use of restored value>".into(), "value".into(), p)),
+                Ok((Ok(fb_rest), gen2)) => {
                     out.restored_differs = fb_orig.first_diff(&fb_rest);
+                    if out.restored_differs.is_none() {
+                        match gen2 {
+                            Ok(f2) => {
+                                out.restored_differs = fb_orig.first_diff(&f2).map(|(f, a, b)| (format!("{f} (second generation: restored, persisted again, restored again)"), a, b))
+                            }
+                            Err(e) => out.restored_differs = Some(("<second generation>".into(), "value".into(), e)),
+                        }
+                    }
                     if let Some(e) = eqr {
                         out.eq_checked = true;
                         out.eq_failed = !e;
@@ -359,12 +377,20 @@ pub fn check(tier: &str, seed: u64, only: Option<&str>) -> i32 {
     let mut json_notes: BTreeSet<String> = BTreeSet::new();
     let mut failing: Vec<(usize, String)> = Vec::new();
     let mut by_crate: BTreeMap<String, u64> = BTreeMap::new();
+    let mut build_panics: BTreeMap<String, u64> = BTreeMap::new();
+    let mut build_panic_sample: BTreeMap<String, String> = BTreeMap::new();
+    let mut good_trips: BTreeMap<String, u64> = BTreeMap::new();
     for (i, r) in results.iter().enumerate() {
         let o = outcome_of(r);
         let e = &reg.c19[meta[i]];
         if let Some(p) = &o.scenario_panic {
-            harness_error(&format!("C19 entry {} is broken: {p}", e.name));
+            // building or observing the ORIGINAL panicked (e.g. a fit that fails on this data
+            // seed): no value to persist. Counted; fatal only if an entry never gets a value.
+            *build_panics.entry(e.name.clone()).or_default() += 1;
+            build_panic_sample.entry(e.name.clone()).or_insert_with(|| p.chars().take(160).collect());
+            continue;
         }
+        *good_trips.entry(e.name.clone()).or_default() += 1;
         *by_crate.entry(e.krate.to_string()).or_default() += 1;
         st.writes += o.storage.writes;
         st.short_writes += o.storage.short_writes;
@@ -405,6 +431,11 @@ pub fn check(tier: &str, seed: u64, only: Option<&str>) -> i32 {
         }
         if let Some(why) = failed(&o) {
             failing.push((i, why));
+        }
+    }
+    for name in build_panics.keys() {
+        if !good_trips.contains_key(name) {
+            harness_error(&format!("C19 entry {name} never produced a value to persist: {}", build_panic_sample[name]));
         }
     }
     // ---- report: one minimised replay per entry
@@ -489,6 +520,8 @@ pub fn check(tier: &str, seed: u64, only: Option<&str>) -> i32 {
             "environment_dependent_originals_(C20_subject)": {"round_trips": env_dep, "entries": env_dep_entries},
             "out_of_contract_probes": probes,
             "violating_round_trips": failing.len(),
+            "round_trips_skipped_because_building_the_original_panicked": build_panics,
+            "build_panic_samples": build_panic_sample,
             "known_findings_matched": known_hits,
             "runs_per_hour": (jobs.len() as f64 / wall.max(1e-9) * 3600.0) as u64,
             "real_components": ["every linfa crate built with its `serde` feature", "serde derive output", "bincode 1.3", "serde_json (float_roundtrip)"],
